@@ -1,9 +1,6 @@
 """C14 — particle and sink tables are loaded completely, typed and scaled correctly."""
 from __future__ import annotations
 
-from . import io_rules as io
-from . import io_rules2 as io2
-from . import dg_rules as dg
 
 EXPLANATION = '(R1) PartReader.read_header on a symbolic particle file (6 variables of types d/i/b, selected or not, first one NOT selected): npart, 5 opaque records skipped by their own length markers, each selected variable decoded on its own record; record locator; (R3) each selected variable gains exactly one piece per file over a two-file history (own record x own magnitude, own unit label), particle count accumulated; (R4) SinkReader.initialize on a text-file model (code-unit and legacy headers): column i <-> name i <-> unit i, x,y,z merged, table made 2-D, missing -> None, empty -> empty group, every load parses anew; mesh buffers: scale/label pairing; (R6) Loader.load applies sortby to requested present groups after assembly; Datagroup.sortby applies one permutation.'
 NOT_DECIDED = "np.loadtxt's parsing of the numbers; particle families/tags semantics"
@@ -22,19 +19,19 @@ def r1_r2(run, tree):
 
 
 def r3(run, tree):
-    run.rule("C14.R3", "row alignment across variables", "path rule", "", floor=3)
+    run.rule("C14.R3", "row alignment across variables", "D1 fold of PartReader.read_header/read_variables on a symbolic file (S1 alignment by byte position)", "", floor=3)
     lay.check_part_header(run, tree)
 
 
 def r4_r5(run, tree):
-    run.rule("C14.R4", "sink parsing; empty vs missing", "path + pairing rules", "", floor=8)
+    run.rule("C14.R4", "sink parsing; empty vs missing; per-dataset code units", "D7 fold of SinkReader.initialize over header forms and histories (two loads, two datasets)", "", floor=8)
     iof.check_sink(run, tree)
     lay.check_bodies(run, tree, aspects=("values",))
     lay.check_part_header(run, tree)
 
 
 def r6(run, tree):
-    run.rule("C14.R6", "sort on load", "path rule", "", floor=3)
+    run.rule("C14.R6", "sort on load", "D7 folds of Loader.load (recording readers) and of Datagroup.sortby", "", floor=3)
     lfold.check_load(run, tree)
     from . import core_folds as cf
     cf.check_group_indexing(run, tree)
